@@ -27,6 +27,7 @@ type Entry struct {
 	Format string            `json:"format,omitempty"` // ustar | pax | gnu | "" (writer's choice)
 	PAX    map[string]string `json:"pax,omitempty"`
 	Size   *int64            `json:"size,omitempty"` // raw only: lie about the size
+	Asec   int64             `json:"asec,omitempty"` // access time (pax / gnu only)
 }
 
 func typeflag(t string) byte {
@@ -99,6 +100,9 @@ func BuildTar(entries []Entry, vars map[string]string) ([]byte, error) {
 		}
 		if len(e.PAX) > 0 {
 			h.PAXRecords = e.PAX
+		}
+		if e.Asec != 0 && (e.Format == "pax" || e.Format == "gnu") {
+			h.AccessTime = time.Unix(e.Asec, 0)
 		}
 		switch e.Type {
 		case "file", "filea", "cont":
